@@ -170,7 +170,7 @@ func loadWorld(extraOverlay map[string][]byte) (*world, error) {
 
 // shouldInit: packages whose initialisers are executed by the interpreter.
 func (w *world) shouldInit(path string) bool {
-	return w.isInterpretedPkg(path) || fallbackPkgs[path]
+	return w.isInterpretedPkg(path) || (fallbackPkgs[path] && !noInitPkgs[path])
 }
 
 func (w *world) lockedOpaque(T types.Type) bool {
